@@ -1,3 +1,3 @@
 (* everything the extracted model runner needs (built by make before Extract.v is run) *)
-From NTT Require Export Functors ScalarOps Simd SimdKernels NTTInst Shards ExprExec CRT CRTExec Setters Serial PolyP RandBytes Salsa Prng PrngConc Samplers SamplersExec GaussDecode GaussExec.
+From NTT Require Export Functors ScalarOps Simd SimdKernels NTTInst Shards ExprExec CRT CRTExec Setters Serial Text PolyP RandBytes Salsa Prng PrngConc Samplers SamplersExec GaussDecode GaussExec.
 From NTT.gen Require Export Params.
